@@ -4,7 +4,7 @@ Theorems: lean/CbProps/C18.lean on the mechanism model CbModel/Imports.lean (exa
 hidden items stay unresolvable, a second import is a no-op, after any import list a name resolves iff an imported
 module exports it, order and repetition are irrelevant).
 Tie: generated module sets (<= 5 modules in nested directories, each exporting / hiding a random subset of
-functions with statics, constants, structs with interface + impl, enums, typedefs; modules import each other:
+functions with statics (called by their plain name and, for single-component module names, also as m.f), constants, structs with interface + impl, enums, typedefs; modules import each other:
 chains and diamonds).  (P) the importing program uses every item the model says is visible: its output must equal
 the single-file program with all definitions inlined, for several permutations / duplications of the import list;
 (N) a program naming one item the model says is NOT visible (hidden, or exported by a module that is not imported)
@@ -46,9 +46,15 @@ class Item:
         if self.kind == "typedef":
             return "%stypedef %s = int;\n" % (e, n)
 
-    def use(self, k):
+    def use(self, k, qual=None):
+        """qual: module name for an additional call through the qualified name m.f (single-component module paths only); the
+        inlined twin (qual=None, twice=True) makes the same calls unqualified"""
         n, p = self.name, self.param
         if self.kind == "func":
+            if qual == "":
+                return "    println(\"%s\", %s(%d));\n    println(\"%s\", %s(%d));\n    println(\"%s\", %s(%d));\n" % (n, n, k, n, n, k + 1, n, n, k + 2)
+            if qual:
+                return "    println(\"%s\", %s(%d));\n    println(\"%s\", %s.%s(%d));\n    println(\"%s\", %s(%d));\n" % (n, n, k, n, qual, n, k + 1, n, n, k + 2)
             return "    println(\"%s\", %s(%d));\n" % (n, n, k)
         if self.kind == "const":
             return "    println(\"%s\", %s);\n" % (n, n)
@@ -71,9 +77,10 @@ def gen_modules(r, prefix):
     nm = r.range(1, 5)
     mods = []
     body = [0]
+    flat = r.chance(30)         # single-component module names: their functions are also called as m.f(...)
     for i in range(nm):
-        d = r.choice(DIRS)
-        path = ".".join(x for x in [prefix, d, "m%d" % i] if x)
+        d = "" if flat else r.choice(DIRS)
+        path = ".".join(x for x in [("" if flat else prefix), d, "m%d" % i] if x)
         # a module may import earlier modules (chains, diamonds)
         imports = [m.path for m in mods if r.chance(35)]
         items = []
@@ -187,9 +194,12 @@ def main(a):
         vis = [x.startswith("some") for x in m.split(";")]
         visible = [(mm, it) for (mm, it), s in zip(all_items, vis) if s]
         hidden = [(mm, it) for (mm, it), s in zip(all_items, vis) if not s]
-        uses = "".join(it.use(k) for k, (_, it) in enumerate(visible))
+        def qual_of(mm, it):
+            return mm.path if (it.kind == "func" and "." not in mm.path and mm.path in imports) else None
+        uses = "".join(it.use(3 * k, qual_of(mm, it)) for k, (mm, it) in enumerate(visible))
+        uses_twin = "".join(it.use(3 * k, "" if qual_of(mm, it) else None) for k, (mm, it) in enumerate(visible))
         body = "int main() {\n" + uses + "    println(\"END\");\n    return 0;\n}\n"
-        twin = inlined(mods, body)
+        twin = inlined(mods, "int main() {\n" + uses_twin + "    println(\"END\");\n    return 0;\n}\n")
         missing = trans_only and (needed_closure(mods, imports) - set(imports))
         cell = "transitive_import_not_loaded" if missing else None
         # several import orders / duplications
